@@ -119,12 +119,14 @@ def theorem_names(lean_file: str) -> list[str]:
     return names
 
 
-def audit_axioms(module: str, thms: list[str]) -> dict:
+def audit_axioms(module: str, thms: list[str], also_import: list[str] | None = None) -> dict:
     """`#print axioms` on every theorem; returns name -> list of axioms (None if lean failed)."""
     os.makedirs(os.path.join(OUT, "audit"), exist_ok=True)
     path = os.path.join(OUT, "audit", module.replace(".", "_") + ".lean")
     with open(path, "w") as f:
         f.write(f"import {module}\n")
+        for m in also_import or []:
+            f.write(f"import {m}\n")
         for t in thms:
             f.write(f"#print axioms {t}\n")
     r = subprocess.run(["lake", "env", "lean", path], cwd=LEAN_DIR, capture_output=True, text=True, timeout=1800)
@@ -139,6 +141,14 @@ def audit_axioms(module: str, thms: list[str]) -> dict:
 
 
 CURRENT_TIER = None
+LAST_LEANCHECKER = None
+
+# theorem modules that belong to a property besides Pdt/Props/<prop>.lean (built, grepped and audited with it)
+EXTRA_MODULES = {
+    "C01": ["Pdt.Props.C01Frag", "Pdt.Props.Lemmas.Inline", "Pdt.Props.Lemmas.Rows", "Pdt.Props.Lemmas.Pointwise"],
+    "C11": ["Pdt.Props.C11Frag"],
+    "C05": ["Pdt.Props.Lemmas.Sort"],
+}
 
 
 def proof_obligations(prop: str, extra_modules: list[str] | None = None, driver=True) -> dict:
@@ -148,9 +158,14 @@ def proof_obligations(prop: str, extra_modules: list[str] | None = None, driver=
     res["tables"] = regen_tables()
     module = f"Pdt.Props.{prop}"
     lean_file = os.path.join(LEAN_DIR, "Pdt/Props", f"{prop}.lean")
-    targets = [module] + (extra_modules or []) + (["pdt_driver"] if driver else [])
+    extra_modules = list(extra_modules or []) + EXTRA_MODULES.get(prop, [])
+    targets = [module] + extra_modules + (["pdt_driver"] if driver else [])
     res["build"] = lake_build(targets) if res["tables"]["ok"] else dict(ok=False, errors=["table generation failed"], failed_targets=[], tail=res["tables"].get("error", ""))
     thms = theorem_names(lean_file) if os.path.exists(lean_file) else []
+    for m in extra_modules:
+        f = os.path.join(LEAN_DIR, m.replace(".", "/") + ".lean")
+        if os.path.exists(f):
+            thms += [t for t in theorem_names(f) if t not in thms]
     res["theorems"] = thms
     lean_sources = []
     for dp, dn, fn in os.walk(os.path.join(LEAN_DIR, "Pdt")):
@@ -159,7 +174,7 @@ def proof_obligations(prop: str, extra_modules: list[str] | None = None, driver=
                 lean_sources.append(os.path.join(dp, f))
     res["forbidden_hits"] = grep_forbidden(lean_sources)
     if res["build"]["ok"]:
-        res["audit"] = audit_axioms(module, thms)
+        res["audit"] = audit_axioms(module, thms, also_import=extra_modules)
         bad = {t: ax for t, ax in res["audit"]["axioms"].items() if set(ax) - ALLOWED_AXIOMS}
         res["bad_axioms"] = bad
         res["discharged"] = len([t for t in thms if t in res["audit"]["axioms"] and t not in bad])
@@ -173,11 +188,17 @@ def proof_obligations(prop: str, extra_modules: list[str] | None = None, driver=
         # independent re-check of the compiled theorem module by the toolchain's leanchecker
         t1 = time.time()
         try:
-            r = subprocess.run(["lake", "env", "leanchecker", module], cwd=LEAN_DIR, capture_output=True, text=True, timeout=1500)
-            res["leanchecker"] = dict(ok=r.returncode == 0, seconds=round(time.time() - t1, 1), tail=(r.stdout + r.stderr)[-400:])
+            r = subprocess.run(["lake", "env", "leanchecker", module], cwd=LEAN_DIR, capture_output=True, text=True, timeout=2400)
+            # killed by a signal (memory: the re-check of the C13 chunks needs ~30 GB) is inconclusive, not a rejection
+            res["leanchecker"] = dict(ok=(r.returncode == 0) if r.returncode >= 0 else None, seconds=round(time.time() - t1, 1),
+                                      tail=(r.stdout + r.stderr)[-400:], returncode=r.returncode)
+        except subprocess.TimeoutExpired:
+            res["leanchecker"] = dict(ok=None, seconds=round(time.time() - t1, 1), tail="timeout (inconclusive)")
         except Exception as e:  # noqa: BLE001
-            res["leanchecker"] = dict(ok=False, seconds=round(time.time() - t1, 1), tail=str(e)[-400:])
-        if not res["leanchecker"]["ok"]:
+            res["leanchecker"] = dict(ok=None, seconds=round(time.time() - t1, 1), tail=str(e)[-400:])
+        global LAST_LEANCHECKER
+        LAST_LEANCHECKER = res["leanchecker"]
+        if res["leanchecker"]["ok"] is False:
             res["ok"] = False
             res["build"].setdefault("errors", []).append("leanchecker rejected " + module)
     res["wall_s"] = round(time.time() - t0, 2)
@@ -249,6 +270,8 @@ class Verdict:
 
     def finish(self, level="proof") -> int:
         wall = round(time.time() - self.t0, 2)
+        if LAST_LEANCHECKER is not None and isinstance(self.coverage, dict):
+            self.coverage["leanchecker"] = LAST_LEANCHECKER
         ev = dict(
             property_id=self.prop,
             tier=self.tier,
